@@ -95,6 +95,64 @@ theorem tamper_detected
   have := hRec w _ _ owner hr1 hr2
   exact hchg (hH _ _ this.symm)
 
+/-! ### the checked-transaction entry: the id used is the id of the CURRENT content -/
+
+/-- whatever the metadata cache held before (nothing, the right id, or a stale id left behind by a public field
+mutator), after `precompute` the object's id is the id of its current content -/
+theorem precompute_id_current (chainId : Nat) (tx : Tx) (cache : Option Bytes) :
+    idOf H chainId (precompute H chainId ⟨tx, cache⟩) = txId H chainId tx := by
+  simp [precompute, idOf]
+
+/-- `into_checked_basic(..)?.check_signatures(..)` gives, for EVERY prior cache state, the verdict of checking the
+signatures over the id of the content as it is now; and the `Checked` object's id is that id -/
+theorem into_checked_uses_current_id (chainId : Nat) (tx : Tx) (cache : Option Bytes) :
+    intoCheckedSignatures recover predOwner H chainId true ⟨tx, cache⟩ =
+      some ((checkSignatures recover predOwner H chainId tx).map (fun _ => ⟨tx, some (txId H chainId tx)⟩)) := by
+  unfold intoCheckedSignatures checkSignaturesObj checkSignatures
+  simp only [precompute_id_current, Bool.not_true, Bool.false_eq_true, if_false]
+  cases hx : checkFrom recover predOwner (txId H chainId tx) tx.witnesses tx.inputs 0 (some []) <;>
+    simp [precompute, idOf, Except.map, hx]
+
+/-- hence the tamper theorem holds for objects with any (stale) cache: an accepted object whose signed content is
+changed through the field mutators without re-signing is rejected by the next `into_checked` -/
+theorem recheck_detects_tamper
+    (hH : ∀ a b, H a = H b → a = b)
+    (hRec : ∀ w m m' a, recover w m = some a → recover w m' = some a → m = m')
+    (chainId : Nat) (tx tx' : Tx) (cache cache' : Option Bytes) (t1 : CachedTx)
+    (hok : intoCheckedSignatures recover predOwner H chainId true ⟨tx, cache⟩ = some (.ok t1))
+    (hchg : tx'.content ≠ tx.content) (hw : tx'.witnesses = tx.witnesses)
+    (owner : Addr) (widx : Nat) (h1 : Input.signed owner widx ∈ tx.inputs) (h2 : Input.signed owner widx ∈ tx'.inputs) :
+    ∀ t2, intoCheckedSignatures recover predOwner H chainId true ⟨tx', cache'⟩ ≠ some (.ok t2) := by
+  intro t2 hok'
+  rw [into_checked_uses_current_id] at hok hok'
+  have a : checkSignatures recover predOwner H chainId tx = .ok () := by
+    cases hx : checkSignatures recover predOwner H chainId tx with
+    | error e => rw [hx] at hok; simp [Except.map] at hok
+    | ok u => rfl
+  have b : checkSignatures recover predOwner H chainId tx' = .ok () := by
+    cases hx : checkSignatures recover predOwner H chainId tx' with
+    | error e => rw [hx] at hok'; simp [Except.map] at hok'
+    | ok u => rfl
+  refine tamper_detected recover predOwner H hH hRec chainId chainId tx tx' a ?_ hw owner widx h1 h2 b
+  intro he
+  exact hchg (List.append_cancel_left he)
+
+/-- the order matters: WITHOUT the unconditional precompute a stale cached id lets a modified content through
+(witness: the cached id is the one the witness was signed over; the content has changed) -/
+example : checkSignaturesObj (fun w m => if m = [9] then (match w with | [k] => some [k, k] | _ => none) else none)
+      (fun c => c) (fun b => b) 0 ⟨{ content := [6, 6, 6], inputs := [.signed [7, 7] 0], witnesses := [[7]] }, some [9]⟩ = .ok () ∧
+    intoCheckedSignatures (fun w m => if m = [9] then (match w with | [k] => some [k, k] | _ => none) else none)
+      (fun c => c) (fun b => b) 0 true ⟨{ content := [6, 6, 6], inputs := [.signed [7, 7] 0], witnesses := [[7]] }, some [9]⟩
+      = some (.error (.InputInvalidSignature 0)) := by
+  constructor <;> decide
+
+/-- obligation on the translator's extraction: each of the six `into_checked_basic` bodies starts with the steps the
+model assumes, in that order -/
+theorem into_checked_order :
+    Gen.Predicates.intoCheckedBasicSteps.length = 6 ∧
+    Gen.Predicates.intoCheckedBasicSteps.all (fun r => r.2 == intoCheckedOrder) = true ∧
+    Gen.Predicates.precomputeClearsFirst.length = 6 := by decide
+
 /-! ### predicates -/
 
 variable (maxGas : List Input → Nat) (p : Params)
